@@ -22,6 +22,18 @@ vf::Config vf::config()
 
 namespace
 {
+    // true when some Reeds-Shepp node of the space sees the two states closer than 5% of its turning radius (either direction)
+    bool rsNear(const Desc &d, const ob::State *a, const ob::State *b)
+    {
+        bool hit = false;
+        walkNodes2(d, a, b,
+                   [&](const Desc &n, const ob::State *x, const ob::State *y)
+                   {
+                       if (n.kind == REEDSSHEPP && std::min(n.space->distance(x, y), n.space->distance(y, x)) < 0.05 * n.p1)
+                           hit = true;
+                   });
+        return hit;
+    }
     // slack for laws that combine k distance evaluations (DESIGN section 3)
     double slack(const Desc &d, int k, double magnitude)
     {
@@ -186,7 +198,7 @@ void vf::run_case(Src &s, Ctx &c)
                     // Reeds-Shepp known finding: for poses closer than 5% of the turning radius the solver's answer depends on the
                     // direction (it misses the short curve one way). Keyed separately so that asymmetry between ordinary poses stays loud.
                     std::string key = familyKey(d, "symmetry");
-                    if (d.kind == REEDSSHEPP && std::min(D[i][j], D[j][i]) < 0.05 * d.p1)
+                    if (d.contains(REEDSSHEPP) && rsNear(d, st[i], st[j]))
                         key += "(poses-closer-than-0.05-rho)";
                     c.failOrKnown(key, vf::fmt("%s: d(a,b)=%.17g, d(b,a)=%.17g", d.name().c_str(), D[i][j], D[j][i]));
                 }
@@ -200,7 +212,7 @@ void vf::run_case(Src &s, Ctx &c)
             double excess = D[i][k] - (D[i][j] + D[j][k]);
             c.stat(std::string("triangle-excess:") + (d.contains(SO3) ? "withSO3" : coarse ? "coarse" : "plain"), excess);
             std::string tkey = familyKey(d, "triangle");
-            if (d.kind == REEDSSHEPP && std::min({D[i][j], D[j][k], D[i][k]}) < 0.05 * d.p1)
+            if (d.contains(REEDSSHEPP) && (rsNear(d, st[i], st[j]) || rsNear(d, st[j], st[k]) || rsNear(d, st[i], st[k])))
                 tkey += "(poses-closer-than-0.05-rho)";  // same known root cause as the symmetry key
             if (!(excess <= e))
                 c.failOrKnown(tkey, vf::fmt("%s claims isMetricSpace() but d(a,c)=%.17g > d(a,b)+d(b,c)=%.17g+%.17g (excess %.3g)",
